@@ -143,6 +143,9 @@ pub fn run(cx: &mut Ctx) {
             check(c, &vec![("a.bin".to_string(), vec![1u8; 8]), ("empty.bin".to_string(), vec![])], &tf);
             check(c, &vec![("only_empty.bin".to_string(), vec![])], &tf);
             check(c, &files, &ArcPlan { tables_first: true, shuffle_records: true, ..base.clone() });
+            // the Count word at the very end of the data, far from the Info table
+            check(c, &files, &ArcPlan { count_far: true, ..base.clone() });
+            check(c, &files, &ArcPlan { count_far: true, tables_first: true, ..base.clone() });
             check(c, &files, &ArcPlan { drop_count_label: true, ..base.clone() });
             check(c, &files, &ArcPlan { drop_info_label: true, ..base.clone() });
             // the same for an arc with no files at all (Count = 0): still an error
@@ -188,7 +191,7 @@ pub fn run(cx: &mut Ctx) {
             super::poison::maybe(c, 9);
             let mut rng = c.rng.clone();
             let files = gen_arc_files(&mut rng, miri);
-            let mut plan = ArcPlan { padded_header: rng.bool(), shuffle_bodies: rng.bool(), shuffle_records: rng.bool(), gaps: rng.bool(), decoy_labels: rng.bool(), tables_first: rng.chance(1, 3), ..Default::default() };
+            let mut plan = ArcPlan { padded_header: rng.bool(), shuffle_bodies: rng.bool(), shuffle_records: rng.bool(), gaps: rng.bool(), decoy_labels: rng.bool(), tables_first: rng.chance(1, 3), count_far: rng.chance(1, 4), ..Default::default() };
             if files.is_empty() {
                 match rng.below(6) {
                     0 => plan.drop_count_label = true,
